@@ -7,7 +7,8 @@ TRUSTED = ['pyvc (VC generator, Python semantics of the stated subset) + libext 
            'z3 5.1.0 / cvc5',
            'LIBSPEC pandas (pyvc/libext/c19_pandas.py): column selection, masks, filter, copy, column assignment, '
            'sample(n, replace=False) and concat are free constructors with projections; sample returns a fresh table of n '
-           'distinct rows of its operand and does not raise',
+           'distinct rows of its operand and does not raise; concat(..., ignore_index=b) carries the label renumbered == b '
+           '(row labels are the positions 0..n-1 iff b)',
            'LIBSPEC numpy.log: pure uninterpreted function',
            'LIBSPEC set iteration: bijection between members and positions [0, len)',
            'induction principle over the naturals (LEMMA balanced-sum: base and step are discharged by z3)']
@@ -26,7 +27,8 @@ EXPLANATION = ('Deductive, all inputs: generate_segment_size (closed form of eve
                'sample_mev_alternatives over an abstract pandas model: for EVERY stratum the frame put into the choice set is '
                'sample(n = requested size, minus one in the stratum of the chosen alternative) of the rows whose id is in the stratum '
                'with the chosen id removed, carries the column _log_proba = log(k) - log(n) with k the requested size (weight n/k in the '
-               'second sample), and the result is concat([chosen row with the correction of its stratum, concat(per-stratum frames)]). '
+               'second sample), and the result is concat([chosen row with the correction of its stratum, concat(per-stratum frames)]) '
+               'with its rows relabelled by position (ignore_index=True on the outer concatenation: process_row names columns by row label). '
                'Static (AST): column naming <col>_<position>, renaming of exactly the alternatives\' attributes by position in the '
                'combined variables and in the utilities, utility_p - _log_proba_p with the chosen at position 0, each sample reads its '
                'own columns.  Lemma (z3): complete sampling makes every correction 0 and every weight 1.  Bounded (real pandas + '
